@@ -204,6 +204,25 @@ Proof.
 Qed.
 Print Assumptions C03_build_end_to_end_self_index.
 
+(* ---------------- one compressor value, several builds ---------------- *)
+
+(* For EVERY sequence of builds (Build or Writer, any inputs, succeeding or failing) made one after the other with
+   one compressor value: right after the k-th build, if it is an external-TOC build that succeeded, WriteTOCTo
+   hands out the TOC of THAT build (not of an earlier one, not a concatenation); builds that fail or that use
+   another format leave the registered TOC untouched; gzip / zstd:chunked values carry nothing. *)
+Theorem C03_external_toc_is_of_its_build :
+  forall l st k c b,
+    nth_error l k = Some c -> step_fmt c = FExt -> step_blob c = Ok b ->
+    nth_error (tocs_after st l) k = Some (Some (b_toc b)).
+Proof. intros l st k c b N F B. exact (tocs_after_each l st k c b N F B). Qed.
+Print Assumptions C03_external_toc_is_of_its_build.
+
+Theorem C03_compressor_value_carries :
+  (forall st c, (step_fmt c <> FExt \/ forall b, step_blob c <> Ok b) -> comp_after st c = st)
+  /\ (forall l st, Forall (fun c => step_fmt c <> FExt) l -> comp_run st l = st).
+Proof. split; [exact ext_toc_kept|exact plain_comp_stateless]. Qed.
+Print Assumptions C03_compressor_value_carries.
+
 (* ---------------- non-vacuity ---------------- *)
 
 (* A parallel build (3 workers, chunk size 512) of a small archive succeeds on the model, the hypotheses of
